@@ -190,8 +190,11 @@ class Inotify:
         # Default to all events
         if event_mask is None:
             event_mask = WATCHDOG_ALL_EVENTS
-            if follow_symlink:
-                event_mask &= ~InotifyConstants.IN_DONT_FOLLOW
+        # Whatever events are asked for, symbolic links are followed only on request.
+        if follow_symlink:
+            event_mask &= ~InotifyConstants.IN_DONT_FOLLOW
+        else:
+            event_mask |= InotifyConstants.IN_DONT_FOLLOW
         self._event_mask = event_mask
         self._follow_symlink = follow_symlink
         self._is_recursive = recursive
